@@ -2,6 +2,7 @@
 //! from the one `Rng` seeded by the case.  (Generators copied from harness/h-exec/src/world.rs and
 //! adapted to the plain in-memory store of this crate.)
 use crate::store::{MemStore, Rel};
+use fuel_core_storage::kv_store::StorageColumn;
 use fuel_core_storage::{
     structured_storage::{StructuredStorage, TableWithBlueprint},
     tables::{
